@@ -6,7 +6,7 @@
 use crate::util::*;
 use crypto_bigint::subtle::{Choice, CtOption};
 use crypto_bigint::{
-    BitOps, BoxedUint, ConstCtOption, Int, ShlVartime, ShrVartime, Uint, Wrapping, WrappingShl, WrappingShr,
+    BitOps, BoxedUint, ConstCtOption, Int, Limb, ShlVartime, ShrVartime, Uint, Wrapping, WrappingShl, WrappingShr,
 };
 
 fn co<const N: usize>(o: ConstCtOption<Uint<N>>) -> String {
@@ -273,6 +273,65 @@ fn signed<const N: usize>(op: &str, a: &[&str]) -> Option<String> {
                 _ => return Some(BAD.into()),
             }
         }
+        // ---- coverage round: bitwise operators of `Int<N>` (src/int/bit_and.rs, bit_or.rs, bit_xor.rs, bit_not.rs):
+        // inherent, wrapping_*, checked_*, every operator impl (value/reference, assigning) and the
+        // `Wrapping<Int<N>>` operator impls must all give the same limbs
+        ("and", [y]) => {
+            let y = arg!(int::<N>(y));
+            let (mut a1, mut a2) = (x, x);
+            a1 &= y;
+            a2 &= &y;
+            let (mut w1, mut w2) = (Wrapping(x), Wrapping(x));
+            w1 &= Wrapping(y);
+            w2 &= &Wrapping(y);
+            let ck: Option<Int<N>> = x.checked_and(&y).into();
+            forms_agree!(
+                [
+                    x.bitand(&y), x & y, x & &y, &x & y, &x & &y, a1, a2, x.wrapping_and(&y),
+                    ck.unwrap_or(Int::MAX), (Wrapping(x) & Wrapping(y)).0, (Wrapping(x) & &Wrapping(y)).0,
+                    (&Wrapping(x) & Wrapping(y)).0, (&Wrapping(x) & &Wrapping(y)).0, w1.0, w2.0
+                ],
+                ihex
+            )
+        }
+        ("or", [y]) => {
+            let y = arg!(int::<N>(y));
+            let (mut a1, mut a2) = (x, x);
+            a1 |= y;
+            a2 |= &y;
+            let (mut w1, mut w2) = (Wrapping(x), Wrapping(x));
+            w1 |= Wrapping(y);
+            w2 |= &Wrapping(y);
+            let ck: Option<Int<N>> = x.checked_or(&y).into();
+            forms_agree!(
+                [
+                    x.bitor(&y), x | y, x | &y, &x | y, &x | &y, a1, a2, x.wrapping_or(&y),
+                    ck.unwrap_or(Int::MAX), (Wrapping(x) | Wrapping(y)).0, (Wrapping(x) | &Wrapping(y)).0,
+                    (&Wrapping(x) | Wrapping(y)).0, (&Wrapping(x) | &Wrapping(y)).0, w1.0, w2.0
+                ],
+                ihex
+            )
+        }
+        ("xor", [y]) => {
+            let y = arg!(int::<N>(y));
+            let (mut a1, mut a2) = (x, x);
+            a1 ^= y;
+            a2 ^= &y;
+            let (mut w1, mut w2) = (Wrapping(x), Wrapping(x));
+            w1 ^= Wrapping(y);
+            w2 ^= &Wrapping(y);
+            let ck: Option<Int<N>> = x.checked_xor(&y).into();
+            forms_agree!(
+                [
+                    x.bitxor(&y), x ^ y, x ^ &y, &x ^ y, &x ^ &y, a1, a2, x.wrapping_xor(&y),
+                    ck.unwrap_or(Int::MAX), (Wrapping(x) ^ Wrapping(y)).0, (Wrapping(x) ^ &Wrapping(y)).0,
+                    (&Wrapping(x) ^ Wrapping(y)).0, (&Wrapping(x) ^ &Wrapping(y)).0, w1.0, w2.0
+                ],
+                ihex
+            )
+        }
+        ("not", []) => forms_agree!([x.not(), !x, (!Wrapping(x)).0], ihex),
+        ("and_limb", [l]) => ihex(&x.bitand_limb(arg!(limb(l)))),
         _ => return None,
     })
 }
@@ -509,6 +568,29 @@ fn limb_op(op: &str, a: &[&str]) -> Option<String> {
         ("leading_zeros", []) => format!("{}", x.leading_zeros()),
         ("trailing_zeros", []) => format!("{}", x.trailing_zeros()),
         ("trailing_ones", []) => format!("{}", x.trailing_ones()),
+        // ---- coverage round: `Limb` bitwise operators incl. the assigning forms (src/limb/bit_and.rs 23-33,
+        // bit_or.rs 22-32, bit_xor.rs 14-24, bit_not.rs)
+        ("and", [y]) => {
+            let y = arg!(limb(y));
+            let (mut a1, mut a2) = (x, x);
+            a1 &= y;
+            a2 &= &y;
+            forms_agree!([x.bitand(y), x & y, a1, a2], |l: &Limb| lhex(*l))
+        }
+        ("or", [y]) => {
+            let y = arg!(limb(y));
+            let (mut a1, mut a2) = (x, x);
+            a1 |= y;
+            a2 |= &y;
+            forms_agree!([x.bitor(y), x | y, a1, a2], |l: &Limb| lhex(*l))
+        }
+        ("xor", [y]) => {
+            let y = arg!(limb(y));
+            let mut a1 = x;
+            a1 ^= y;
+            forms_agree!([x.bitxor(y), x ^ y, a1], |l: &Limb| lhex(*l))
+        }
+        ("not", []) => forms_agree!([x.not(), !x], |l: &Limb| lhex(*l)),
         _ => return None,
     })
 }
